@@ -73,7 +73,11 @@ fn main() {
             };
             let out = PathBuf::from(&args[7]);
             crashlabel::install(&out.with_extension("crash"));
-            let rep = props::worker(&ctx);
+            let mut rep = props::worker(&ctx);
+            let big = hist::BIG_BLOCKS.load(std::sync::atomic::Ordering::Relaxed);
+            if big > 0 {
+                rep.count("generated_blocks_with_over_256_transactions", big);
+            }
             std::fs::write(&out, serde_json::to_string(&rep).unwrap()).expect("write worker report");
             // scratch databases of this process
             rpc::remove_dir(&rpc::process_work_dir(&ctx.prop));
